@@ -78,6 +78,7 @@ M = [
     ('http-server-handler-ignores-stop', 'streamz/sources.py', "                if self.source.stopped:\n                    # stop() makes the server", "                if False:\n                    # stop() makes the server", ['C18']),
     ('sync-drops-falsy-exception', 'streamz/core.py', "    if error[0] is not None:\n        raise error[0]", "    if error[0]:\n        raise error[0]", ['C16']),
     ('textfile-seeks-to-end-at-every-start', 'streamz/sources.py', "        if self.stopped:\n            self.stopped = False\n            self.started = True\n            if not self._running:\n                # otherwise the previous run()", "        if getattr(self, 'from_end', False) and hasattr(self, 'file'):\n            self.file.seek(0, 2)\n        if self.stopped:\n            self.stopped = False\n            self.started = True\n            if not self._running:\n                # otherwise the previous run()", ['C18']),
+    ('collect-flush-stays-on-callers-thread', 'streamz/core.py', "            if not on_loop:\n                # called from the user's thread on a blocking pipeline", "            if False:\n                # called from the user's thread on a blocking pipeline", ['C05']),
 ]
 
 
